@@ -31,6 +31,10 @@ func genC04(seed uint64, tier string) *RunConfig {
 	seen := map[string]bool{}
 	for i := 0; i < n; i++ {
 		h := c04Hosts[r.IntN(nh)]
+		if r.IntN(6) == 0 {
+			// the same lookup hostname declared in another case (a server-alias is not validated)
+			h = strings.ToUpper(h[:1]) + h[1:]
+		}
 		p := c04Paths[r.IntN(len(c04Paths))]
 		t := []string{"exact", "prefix", "begin"}[r.IntN(3)]
 		if _, avoid := avoidFlags(); avoid["no_case_variant_paths"] && p != strings.ToLower(p) {
@@ -39,7 +43,7 @@ func genC04(seed uint64, tier string) *RunConfig {
 		if _, avoid := avoidFlags(); avoid["no_upper_case_prefix"] && p != strings.ToLower(p) && t == "prefix" {
 			continue
 		}
-		k := h + "#" + p + "#" + t
+		k := strings.ToLower(h) + "#" + p + "#" + t
 		if seen[k] {
 			continue
 		}
@@ -55,6 +59,7 @@ func genC04(seed uint64, tier string) *RunConfig {
 func runC04(r *Run) error {
 	var order []hatypes.MatchType
 	var rules []refRule
+	var rawHosts []string // as declared: hostnames are matched in lower case
 	for _, op := range r.Cfg.Ops {
 		switch op.Type {
 		case "order":
@@ -62,7 +67,8 @@ func runC04(r *Run) error {
 				order = append(order, hatypes.MatchType(o))
 			}
 		case "rule":
-			rules = append(rules, refRule{host: op.Kind, path: op.Key, typ: op.Note, svc: fmt.Sprintf("b%d", len(rules)+1)})
+			rules = append(rules, refRule{host: strings.ToLower(op.Kind), path: op.Key, typ: op.Note, svc: fmt.Sprintf("b%d", len(rules)+1)})
+			rawHosts = append(rawHosts, op.Kind)
 		}
 	}
 	if len(order) != 4 || len(rules) == 0 {
@@ -73,10 +79,10 @@ func runC04(r *Run) error {
 	be := backends.AcquireBackend("ns", "svc", "80")
 	maps := hatypes.CreateMaps(order)
 	hmap := maps.AddMap("/maps/_front.map")
-	for _, ru := range rules {
+	for i, ru := range rules {
 		host := hosts.AcquireHost(ru.host)
 		hp := host.AddPath(be, ru.path, hatypes.MatchType(ru.typ))
-		hmap.AddHostnamePathMapping(ru.host, hp, ru.svc)
+		hmap.AddHostnamePathMapping(rawHosts[i], hp, ru.svc)
 	}
 	files := hmap.MatchFiles()
 	type mf struct {
